@@ -560,7 +560,11 @@ class Sym:
             if k is not None and o.num is None and k != 0 and (1 / k).denominator == 1:
                 return self * int(1 / k)
             return _ctx().opaque("div", self, o)
-        _ctx().nonzero(o.real())
+        if not _ctx().nonzero(o.real()):
+            # numpy semantics: x/0 = nan (x == 0) or +-inf, with a RuntimeWarning
+            if bool(self == 0):
+                return math.nan
+            return math.inf if bool(self > 0) else -math.inf
         r = Sym(self.real() / o.real())
         if self.d is not None or o.d is not None:
             # (a/b)' = (a' b - a b') / b^2
@@ -584,13 +588,15 @@ class Sym:
             return NotImplemented
         if self.is_int and o.is_int:
             c = _ctx()
-            c.nonzero(_to_real(o.p))
+            if not c.nonzero(_to_real(o.p)):
+                raise ZeroDivisionError("integer division or modulo by zero")
             # python floor division; z3 div is floor for positive divisors
             if bool(SymBool(o.p > 0)):
                 return Sym(self.p / o.p, is_int=True)
             raise Unsupported("floor division by a non-positive symbolic int")
         if self.plain and o.plain:
-            _ctx().nonzero(o.real())
+            if not _ctx().nonzero(o.real()):
+                return math.nan
             return Sym(z3.ToReal(z3.ToInt(self.real() / o.real())))
         raise Unsupported("floordiv on log-kind values")
 
@@ -605,13 +611,15 @@ class Sym:
         if o is NotImplemented or isinstance(o, float):
             return NotImplemented
         if self.is_int and o.is_int:
-            _ctx().nonzero(_to_real(o.p))
+            if not _ctx().nonzero(_to_real(o.p)):
+                raise ZeroDivisionError("integer division or modulo by zero")
             if bool(SymBool(o.p > 0)):
                 return Sym(self.p % o.p, is_int=True)
             raise Unsupported("mod by non-positive symbolic int")
         if self.plain and o.plain:
             # real modulo with python/numpy sign convention (result has sign of divisor)
-            _ctx().nonzero(o.real())
+            if not _ctx().nonzero(o.real()):
+                return math.nan
             q = z3.ToReal(z3.ToInt(self.real() / o.real()))
             r = Sym(self.real() - q * o.real())
             if self.d is not None:
